@@ -106,7 +106,7 @@ class ValidRange(Case):
     def call(self, mod, e):
         return mod.valid_range_test(e.x, (e.lo, e.hi), start_inclusive=self.params["si"], end_inclusive=self.params["ei"])
 
-    def regions(self, e):
+    def regions(self, e, res=None, k=None):
         return {"integer-dtype-with-open-bound": self.params["kind"] == "int" and not (self.params["lo"] and self.params["hi"])}
 
     def post(self, e, res, k):
